@@ -689,10 +689,13 @@ class CloneSuite(Suite):
                ' let el = o_log(a); out.check(l == el, "%s", "clone_calls", || format!("clone({}) called {:?} expected {:?}", show(a), l, el)); }'
                ' let n = vs.len(); for i in 0..n { for j in 0..n { let mut x = values().swap_remove(i); let shown = show(&x); ::core::clone::Clone::clone_from(&mut x, &vs[j]); let e = o_clone(&vs[j]);'
                ' out.check(show(&x) == show(&e), "%s", "clone_from", || format!("{}.clone_from({}) = {} expected {}", shown, show(&vs[j]), show(&x), show(&e))); } } }' % (tid, tid, tid))
+        resline = (' let mut res = String::new(); for a in &vs { let _ = take_log(); let g = ::core::clone::Clone::clone(a); let l = take_log(); res.push_str(&format!("{}|{}", show(&g), l.join(";"))); res.push(\'\\u{1}\'); } println!("RES\\t%s\\tclone\\t{}", res);'
+                   ' let mut res = String::new(); for i in 0..n { for j in 0..n { let mut x = values().swap_remove(i); ::core::clone::Clone::clone_from(&mut x, &vs[j]); res.push_str(&show(&x)); res.push(\'\\u{1}\'); } } println!("RES\\t%s\\tclone_from\\t{}", res); }' % (tid, tid))
+        run = run[:-1] + resline
         if copy:
             run = run[:-1] + ' fn is_copy<X: Copy>() {} is_copy::<T>(); }'
         fns.append(run)
-        return t, module(t, '\n'.join(fns), nv), dict(values=nv, copy=copy)
+        return t, module(t, '\n'.join(fns), nv), dict(values=nv, copy=copy, xops=['clone', 'clone_from'])
 
 DEF_TYPES = [  # (rust type, [(attribute value text, expected expr)], plain default expr)
     ('u8', [('5', '5u8'), ('b\'a\'', "b'a'"), ('0x10', '16u8'), ('7u8', '7u8')], '0u8'),
